@@ -57,6 +57,7 @@ KINDS_IP = ['p3', 'p52', 'pow', 'gm']
 KINDS_EXP = ['exp', 'ent', 'kl']
 KINDS = KINDS_LP + KINDS_SOC + KINDS_IP + KINDS_EXP
 PKINDS = ['pbox', 'pn1', 'pninf', 'pn2', 'pp3', 'pkl']
+TRIPLE_B = ['bnd', 'lin', 'abs', 'n2', 'p3', 'exp', 'kl']      # one used set per internal list (triples only)
 
 
 def _ro_a(role, kind, g, i):
@@ -102,7 +103,7 @@ def _leak_ro(thorough):
     if thorough:
         for k1 in KINDS:
             for k2 in KINDS:
-                for kb in KINDS:
+                for kb in TRIPLE_B:
                     for r1, r2 in itertools.product(('decoy', 'real'), repeat=2):
                         a1 = _ro_a(r1, k1, 'A', 1)
                         a2 = _ro_a(r2, k2, 'C', 2)
@@ -213,7 +214,7 @@ def _leak_dro(thorough):
 # ------------------------------------------------------------------------------------------------ cache protocol
 RO_FULL = ['lin', 'bnd', 'soc', 'ipc', 'exp', 'rown', 'rdef', 'late', 'adapt']
 RO_CORE = ['exp', 'rdef', 'late', 'adapt']
-DRO_SMALL = ['lin', 'soc', 'rob', 'ecn', 'late', 'evt', 'lsupp', 'lexp', 'lprob']
+DRO_SMALL = ['rob', 'ecn', 'late', 'evt', 'lsupp', 'lexp', 'lprob']
 DRO_QUICK = ['rob', 'ecn', 'late', 'evt', 'lsupp', 'lexp']
 OPS_ALL = ['P', 'D', 'S', 'Sd', 'Q', 'G']
 OPS_CORE = ['P', 'D', 'S', 'Q', 'G']
@@ -310,7 +311,7 @@ def exhaustive(tier):
 
 def bounds(tier):
     th = tier == 'thorough'
-    return {'leak': {'set_kinds': len(KINDS), 'probability_set_kinds': len(PKINDS), 'tuple': 3 if th else 2,
+    return {'leak': {'set_kinds': len(KINDS), 'probability_set_kinds': len(PKINDS), 'tuple': 3 if th else 2, 'triple_used_set_kinds': TRIPLE_B if th else [],
                      'ro_roles': 'decoy|real|superseded-default x forall|minmax|maxmin, orders AB|BA|BAB (+rvar noise)',
                      'dro_orders': 'AB|BA|mix|late' if th else 'AB|BA'},
             'seq': {'ro_full_alphabet': ['st:' + d for d in RO_FULL] + OPS_ALL, 'ro_full_depth': 4 if th else 3,
